@@ -1,6 +1,6 @@
 (* C20 — hashing work per operation is bounded independently of the cache size (abstract model;
    the correspondence requires the implementation's Hash::hash count to be <= the model's). *)
-Require Import LruV.A.CostA.
+Require Import LruV.A.CostA LruV.A.PanicCost.
 
 (* For every operation, state and oracle: with departed = len before + (1 if a new entry was added) - len after,
      hashes <= 2 + departed + (if the table was rebuilt then the number of held entries else 0);
@@ -19,6 +19,12 @@ Proof. intros E s ren c evs H. unfold do_clone in H. destruct (t_alloc E (capaci
 Theorem C20_drop_into_iter : forall s kind pat f, e_hashes (do_drop s) = 0 /\ e_hashes (snd (do_into_iter s kind pat f)) = 0.
 Proof. intros. unfold do_drop, do_into_iter. destruct (take_ends (ents s) pat). auto. Qed.
 
+(* the cost counted by the step function is the number of Hash callback points of the callback-point model of C16
+   (A/PanicA.v), at which the correspondence injects its panics: both properties speak about the same artefact *)
+Theorem C20_hash_points : forall E VS, 0 < E -> VS <= E -> forall s p o s' out evs, Inv E s -> wf_op E s p ->
+  stepA E VS fixed s p o = Some (s', out, evs) -> nh (panic_points E s p o) = e_hashes evs.
+Proof. exact hash_points_are_the_cost. Qed.
+
 Example C20_example :
   let o := {| o_tomb := 0; o_reuse := false; o_alloc := true |} in
   let mk i := {| ek := {| kid := i; ktok := i; kheap := 0 |}; ev := {| vtok := 100 + i; vtag := i; vheap := 0 |}; es := 72 |} in
@@ -29,3 +35,4 @@ Proof. cbv zeta. eexists _, _, _. split; [vm_compute; reflexivity|]. split; refl
 
 Print Assumptions C20_bound.
 Print Assumptions C20_clone.
+Print Assumptions C20_hash_points.
